@@ -2,6 +2,7 @@ package rules
 
 import (
 	"go/token"
+	"go/types"
 
 	"golang.org/x/tools/go/ssa"
 
@@ -521,4 +522,78 @@ func copyBind(m map[ssa.Value]ssa.Value) map[ssa.Value]ssa.Value {
 		out[k] = v
 	}
 	return out
+}
+
+// constStringSlice: the elements of a package-level []string that is assigned once,
+// in the package initialiser, from a literal of constants, and whose elements are never
+// assigned afterwards.
+func (e *Env) constStringSlice(g *ssa.Global) ([]string, bool) {
+	if g.Pkg == nil {
+		return nil, false
+	}
+	init := g.Pkg.Func("init")
+	if init == nil {
+		return nil, false
+	}
+	var lit *ssa.Slice
+	for _, f := range e.RepoFuncsSorted() {
+		for _, b := range f.Blocks {
+			for _, in := range b.Instrs {
+				switch x := in.(type) {
+				case *ssa.Store:
+					if x.Addr == ssa.Value(g) {
+						sl, isSl := x.Val.(*ssa.Slice)
+						if f != init || !isSl || lit != nil {
+							return nil, false
+						}
+						lit = sl
+					}
+					// an element assigned through a load of the global
+					if ia, isIA := x.Addr.(*ssa.IndexAddr); isIA {
+						if u, isU := ir.Resolve(ia.X).(*ssa.UnOp); isU && u.X == ssa.Value(g) {
+							return nil, false
+						}
+					}
+				}
+			}
+		}
+	}
+	if lit == nil {
+		return nil, false
+	}
+	al, ok := lit.X.(*ssa.Alloc)
+	if !ok {
+		return nil, false
+	}
+	at, ok := al.Type().Underlying().(*types.Pointer).Elem().Underlying().(*types.Array)
+	if !ok {
+		return nil, false
+	}
+	out := make([]string, at.Len())
+	set := make([]bool, at.Len())
+	for _, ref := range *al.Referrers() {
+		ia, isIA := ref.(*ssa.IndexAddr)
+		if !isIA {
+			continue
+		}
+		k, isK := ir.ConstInt(ia.Index)
+		if !isK || k < 0 || k >= at.Len() {
+			return nil, false
+		}
+		for _, r2 := range *ia.Referrers() {
+			if st, isSt := r2.(*ssa.Store); isSt {
+				s, isS := ir.ConstString(st.Val)
+				if !isS {
+					return nil, false
+				}
+				out[k], set[k] = s, true
+			}
+		}
+	}
+	for _, s := range set {
+		if !s {
+			return nil, false
+		}
+	}
+	return out, true
 }
